@@ -177,7 +177,7 @@ def run(ctx: core.Ctx) -> int:
         h3 = [g["hist"] for g in g3 if len(g["hist"]) == 3]
         hists += rnd.sample(h3, min(1500, len(h3)))
     cases = [{"tid": i + 1, "hist": h, "label": json.dumps([[c["kind"], c["targets"]] for c in h])} for i, h in enumerate(hists)]
-    evl = core.pmap(run_case, cases, chunksize=4, daemon=False)
+    evl = ctx.pmap(run_case, cases, chunksize=4, daemon=False)
     events = [e for es in evl for e in es]
     for ev in [e for e in events if e["cmd"]["kind"].startswith("annotate")][:3] + events[:1]:
         ctx.samples.append({"cmd": ev["cmd"], "changed": ev["changed"], "created": ev["created"], "removed": ev["removed"],
@@ -198,4 +198,4 @@ def run(ctx: core.Ctx) -> int:
 
 
 def replay(ctx: core.Ctx, path: str) -> int:
-    raise core.MachineryError("replay for C15 re-runs the case list; use the check with the same VERIF_SEED")
+    return core.generic_replay(ctx, path)
